@@ -107,7 +107,7 @@ class CacheRun(object):
         self.clock.reads = []
         r = orig()
         now = self.clock.reads[0] if self.clock.reads else self.clock.now
-        self.ev.append(dict(k='chose', m=self.mid(r), now=int(now)))
+        self.ev.append(dict(k='chose', m=self.mid(r), now=int(now), lag=int(m.settings.MIN_TIMESTAMP_LAG)))
         return r
       strat.choose_item = choose_item
     self.last_obs = None
@@ -239,7 +239,12 @@ class CacheRun(object):
           raise Machinery('workload thread %s died: %r' % (t.name, t.exc))
       self.observe(force=True)
       if flush:
-        self.clock.now += self.cfg.get('lag', 0) + 10
+        if self.cfg.get('shutdown_flush'):
+          # an orderly shutdown: the writer's hook sets MIN_TIMESTAMP_LAG to 0 (no point in waiting any longer) and the
+          # final passes must hand out everything, however young
+          self.mods.settings['MIN_TIMESTAMP_LAG'] = 0
+        else:
+          self.clock.now += self.cfg.get('lag', 0) + 10
         n = 0
         while len(self.cache) and n < 3 * len(self.cache) + 6:
           self.do_drain('W')
